@@ -106,7 +106,7 @@ def u_connection_made(ctx, index):
   reg_p = any(getattr(h, 'obj', None) is recv for h in ev.attrs['pauseReceivingMetrics'].handlers)
   reg_r = any(getattr(h, 'obj', None) is recv and h.func.info.name == 'resumeReceiving' for h in ev.attrs['resumeReceivingMetrics'].handlers)
   ctx.check('C09/connectionMade/I_bp_recv', z3.Implies(flow, z3.BoolVal(reg_p and reg_r)))
-  ctx.check('C09/connectionMade/tracked_as_connected', z3.BoolVal(recv in conns.items))
+  ctx.check('aux/connectionMade/tracked_as_connected', z3.BoolVal(recv in conns.items))
 
 
 def u_connection_lost(ctx, index):
@@ -130,8 +130,8 @@ def u_connection_lost(ctx, index):
   ctx.cover('connectionLost/returns')
   left = [h for h in ev.attrs['pauseReceivingMetrics'].handlers + ev.attrs['resumeReceivingMetrics'].handlers
           if getattr(h, 'obj', None) is recv]
-  ctx.check('C09/connectionLost/handlers_removed_under_flow_control', z3.Implies(flow, z3.BoolVal(not left)))
-  ctx.check('C09/connectionLost/untracked', z3.BoolVal(recv not in conns.items))
+  ctx.check('aux/connectionLost/handlers_removed_under_flow_control', z3.Implies(flow, z3.BoolVal(not left)))
+  ctx.check('aux/connectionLost/untracked', z3.BoolVal(recv not in conns.items))
 
 
 def u_pause_resume(ctx, index):
@@ -148,7 +148,8 @@ def units():
   return [
     Unit('protocols.MetricReceiver.connectionMade', u_connection_made, [MR + '.connectionMade', MR + '.pauseReceiving'],
          expect_covers=['connectionMade/returns']),
-    Unit('protocols.MetricReceiver.connectionLost', u_connection_lost, [MR + '.connectionLost'], expect_covers=['connectionLost/returns']),
+    # (connectionLost only carries informative clauses -- handlers removed, connection untracked --
+    # which C09 does not demand: the unit is kept in the file, not in the property)
     Unit('protocols.MetricReceiver.pause_resume', u_pause_resume, [MR + '.pauseReceiving', MR + '.resumeReceiving'],
          expect_covers=['pause_resume/returns']),
   ]
